@@ -1,10 +1,352 @@
-"""C20: the two row-bound expressions of fits_tools.load_image_band"""
+"""C20: fits_tools.load_image_band, regenerated piece by piece.
+
+  rowMin / rowMax        the two row-bound expressions (translated in place, int mode)
+  guard                  the argument-validation prologue: every `raise` that precedes the first statement that is
+                         not an `if … raise` becomes `code = k` (k = 1, 2, … in source order, 0 = accepted)
+  hdrNaxis2C / hdrCrpix2C   the header adjustments made before the `return` inside `if compressed:`
+  hdrNaxis2P / hdrCrpix2P   the header adjustments made before the function's final `return`
+  secN, secL0, secL1, secRlo, secRhi, secClo, secChi
+                         the NAXIS dispatch: for the branch `NAXIS == k` the subscript of `.section[...]` is read as
+                         (leading indices …, row slice, column slice); secN = number of leading indices (99 = raise),
+                         secL0/secL1 their values, the others the slice bounds (`:` = 0 … NAXIS1)
+  cmpRlo, cmpRhi, cmpClo, cmpChi   the subscript `hdulist[0].data[ … ]` of the compressed branch
+
+The slices are written as small Python functions (inside the translator's int-mode whitelist) into a scratch file,
+from the AST of the tree under test ($AEGEAN_REPO, default /repo); anything the slicer does not recognise is
+written as a call the translator rejects, so the piece is reported UNTRANSLATABLE, the hand model of
+Aegean/Model/C20.lean stands in and only the correspondence check ties that piece to the code.
+"""
+import ast
+import hashlib
+import os
+import tempfile
+
+_F = 'AegeanTools/fits_tools.py'
+_SUBST = {"header['NAXIS2']": 'rows', 'header["NAXIS2"]': 'rows', "band[0]": 'i', "band[1]": 'n'}
+
+
+def _only_raises(stmts):
+    return all(isinstance(s, ast.Raise) for s in stmts) and len(stmts) > 0
+
+
+def _is_guard_if(s):
+    """an if / elif chain all of whose leaves are `raise` (a missing else is allowed)"""
+    if not isinstance(s, ast.If):
+        return False
+    if not _only_raises(s.body):
+        return False
+    if not s.orelse:
+        return True
+    if len(s.orelse) == 1 and isinstance(s.orelse[0], ast.If):
+        return _is_guard_if(s.orelse[0])
+    return _only_raises(s.orelse)
+
+
+def _rename(expr_src):
+    for k, v in _SUBST.items():
+        expr_src = expr_src.replace(k, v)
+    return expr_src
+
+
+class _Inline(ast.NodeTransformer):
+    def __init__(self, alias):
+        self.alias = alias
+
+    def visit_Name(self, node):
+        if isinstance(node.ctx, ast.Load) and node.id in self.alias:
+            return ast.parse(self.alias[node.id], mode='eval').body
+        return node
+
+
+def _inl(node, alias):
+    import copy
+    return ast.unparse(ast.fix_missing_locations(_Inline(alias).visit(copy.deepcopy(node))))
+
+
+def _guard_slice(fn):
+    """the validation prologue: leading `name = <expression>` statements are inlined as aliases (so `total = band[1]`
+    followed by tests on `total` reads the same), then every if/elif chain whose leaves are all `raise`"""
+    counter = [0]
+    lines = ["def guard(i, n):", "    code = 0"]
+    alias = {}
+
+    def chain(s, ind, first=True):
+        counter[0] += 1
+        kw = 'if' if first else 'elif'
+        lines.append(f"{ind}{kw} {_rename(_inl(s.test, alias))}:")
+        lines.append(f"{ind}    code = {counter[0]}")
+        if s.orelse:
+            if len(s.orelse) == 1 and isinstance(s.orelse[0], ast.If):
+                chain(s.orelse[0], ind, False)
+            else:
+                counter[0] += 1
+                lines.append(f"{ind}else:")
+                lines.append(f"{ind}    code = {counter[0]}")
+
+    body = [s for s in fn.body if not (isinstance(s, ast.Expr) and isinstance(s.value, ast.Constant))]  # docstring
+    k = nguards = 0
+    while k < len(body):
+        s = body[k]
+        if isinstance(s, ast.Assign) and len(s.targets) == 1 and isinstance(s.targets[0], ast.Name) \
+                and not any(isinstance(x, ast.Call) for x in ast.walk(s.value)):
+            alias[s.targets[0].id] = '(' + _inl(s.value, alias) + ')'
+        elif isinstance(s, ast.Assign) and len(s.targets) == 1 and isinstance(s.targets[0], ast.Tuple) \
+                and all(isinstance(e, ast.Name) for e in s.targets[0].elts) and ast.unparse(s.value) == 'band' \
+                and len(s.targets[0].elts) == 2:
+            for j, e in enumerate(s.targets[0].elts):       # `i, n = band`
+                alias[e.id] = f'(band[{j}])'
+        elif _is_guard_if(s):
+            if nguards == 0:
+                chain(s, "    ")
+            else:           # a later, separate `if`: only reached when nothing was raised before
+                lines.append("    if code == 0:")
+                chain(s, "        ")
+            nguards += 1
+        else:
+            break
+        k += 1
+    if nguards == 0:
+        lines.append("    code = untranslatable('no validation prologue')")
+    lines.append("    return code")
+    return "\n".join(lines) + "\n"
+
+
+def _hdr_updates(block):
+    """the `header[...]` assignments of a statement list that ends in `return`, as python over naxis2 / crpix2"""
+    out = []
+    for s in block:
+        tgt = None
+        if isinstance(s, ast.Assign) and len(s.targets) == 1:
+            tgt, val = s.targets[0], ast.unparse(s.value)
+        elif isinstance(s, ast.AugAssign):
+            tgt = s.target
+            op = {ast.Sub: '-', ast.Add: '+', ast.Mult: '*'}.get(type(s.op))
+            if op is None:
+                return None
+            val = f"({ast.unparse(s.target)}) {op} ({ast.unparse(s.value)})"
+        if tgt is None or not (isinstance(tgt, ast.Subscript) and ast.unparse(tgt.value) == 'header'):
+            continue
+        key = ast.literal_eval(tgt.slice) if isinstance(tgt.slice, ast.Constant) else None
+        name = {'NAXIS2': 'naxis2', 'CRPIX2': 'crpix2'}.get(key)
+        if name is None:
+            return None        # another header card is touched: outside what this slice can say
+        for k, v in (("header['NAXIS2']", 'naxis2'), ('header["NAXIS2"]', 'naxis2'),
+                     ("header['CRPIX2']", 'crpix2'), ('header["CRPIX2"]', 'crpix2')):
+            val = val.replace(k, v)
+        out.append(f"    {name} = {val}")
+    return out
+
+
+def _find_returns(fn):
+    """(block, nested_under_compressed) for every `return data, header`-like statement, with the block it ends"""
+    found = []
+
+    def walk(stmts, under):
+        for s in stmts:
+            if isinstance(s, ast.Return):
+                found.append((stmts, under))
+            elif isinstance(s, ast.If):
+                u = under or 'compressed' in ast.unparse(s.test)
+                walk(s.body, u)
+                walk(s.orelse, under)
+            elif isinstance(s, (ast.With, ast.For, ast.While, ast.Try)):
+                walk(s.body, under)
+    walk(fn.body, False)
+    return found
+
+
+def _plain_return_block(block):
+    """the block ends in `return <name>, header` and nothing in it hands `header` to a call (a helper that adjusts the
+    header in place, `return data, crop(header, …)`, … cannot be read by this slicer: be conservative)"""
+    ret = block[-1] if block and isinstance(block[-1], ast.Return) else None
+    if ret is None:
+        rets = [s for s in block if isinstance(s, ast.Return)]
+        ret = rets[-1] if rets else None
+    if ret is None or not isinstance(ret.value, ast.Tuple) or len(ret.value.elts) != 2 \
+            or not all(isinstance(e, ast.Name) for e in ret.value.elts) or ret.value.elts[1].id != 'header':
+        return False
+    start = 0
+    for k, s in enumerate(block):       # what happens before the row bounds exist cannot depend on them
+        if isinstance(s, ast.Assign) and any('row_min' in ast.unparse(t) for t in s.targets):
+            start = k
+            break
+    for s in block[start:]:
+        for c in ast.walk(s):
+            if isinstance(c, ast.Call) and ast.unparse(c.func) not in ('is_compressed',) and any(isinstance(a, ast.Name) and a.id == 'header' for a in
+                                               list(c.args) + [k.value for k in c.keywords]):
+                return False
+    return True
+
+
+def _hdr_slice(fn, which):
+    rets = [(b, u) for b, u in _find_returns(fn) if u == (which == 'c')]
+    name = 'hdr_' + which
+    head = f"def {name}(naxis2, crpix2, row_min, row_max):\n"
+    if len(rets) != 1:
+        return head + f"    naxis2 = untranslatable('{len(rets)} return sites')\n    crpix2 = naxis2\n    return naxis2\n"
+    if not _plain_return_block(rets[0][0]):
+        return head + "    naxis2 = untranslatable('return block not of the form: header updates; return data, header')\n    crpix2 = naxis2\n    return naxis2\n"
+    ups = _hdr_updates(rets[0][0])
+    if ups is None:
+        return head + "    naxis2 = untranslatable('header updates not recognised')\n    crpix2 = naxis2\n    return naxis2\n"
+    # make both names assigned so that both outputs exist even when a card is left alone
+    return head + "    naxis2 = naxis2 + 0\n    crpix2 = crpix2 + 0\n" + "\n".join(ups) + "\n    return naxis2\n"
+
+
+def _slice_bounds(sl, full_hi):
+    """(lo, hi) python source of a slice node; `:` is 0 … full_hi; an index (not a slice) gives None"""
+    if not isinstance(sl, ast.Slice) or sl.step is not None:
+        return None
+    lo = ast.unparse(sl.lower) if sl.lower is not None else '0'
+    hi = ast.unparse(sl.upper) if sl.upper is not None else full_hi
+    for k in ("header['NAXIS1']", 'header["NAXIS1"]'):
+        lo, hi = lo.replace(k, 'naxis1'), hi.replace(k, 'naxis1')
+    for k in ("header['NAXIS2']", 'header["NAXIS2"]'):
+        lo, hi = lo.replace(k, 'naxis2'), hi.replace(k, 'naxis2')
+    return lo, hi
+
+
+def _subscript_parts(sub):
+    """leading index sources, row bounds, column bounds of  X[ a, b, r0:r1, c0:c1 ]"""
+    elts = sub.slice.elts if isinstance(sub.slice, ast.Tuple) else [sub.slice]
+    if len(elts) < 2:
+        return None
+    rows = _slice_bounds(elts[-2], 'naxis2')
+    cols = _slice_bounds(elts[-1], 'naxis1')
+    if rows is None or cols is None:
+        return None
+    lead = []
+    for e in elts[:-2]:
+        if isinstance(e, ast.Slice):
+            return None
+        lead.append(ast.unparse(e))
+    if len(lead) > 2:
+        return None
+    return lead, rows, cols
+
+
+def _section_slice(fn):
+    head = "def section(naxis, cube_index, row_min, row_max, naxis1, naxis2):\n"
+    init = "    nlead = 99\n    l0 = 0\n    l1 = 0\n    rlo = 0\n    rhi = 0\n    clo = 0\n    chi = 0\n"
+    bad = head + "    nlead = untranslatable('NAXIS dispatch not recognised')\n    l0 = nlead\n    l1 = nlead\n    rlo = nlead\n" \
+                 "    rhi = nlead\n    clo = nlead\n    chi = nlead\n    return nlead\n"
+    # the if-chain whose tests compare NAXIS (or header['NAXIS']) with a constant
+    chains = [s for s in ast.walk(fn) if isinstance(s, ast.If) and isinstance(s.test, ast.Compare)
+              and ast.unparse(s.test.left) in ('NAXIS', "header['NAXIS']", 'header["NAXIS"]')]
+    if not chains:
+        return bad
+    top = chains[0]
+    lines = []
+    s, first = top, True
+    while True:
+        test = ast.unparse(s.test)
+        for k in ("header['NAXIS']", 'header["NAXIS"]', 'NAXIS'):
+            test = test.replace(k, 'naxis') if k in test else test
+        subs = [n for st in s.body for n in ast.walk(st) if isinstance(n, ast.Subscript)
+                and isinstance(n.value, ast.Attribute) and n.value.attr == 'section']
+        if len(s.body) != 1 or len(subs) != 1:
+            return bad
+        parts = _subscript_parts(subs[0])
+        if parts is None:
+            return bad
+        lead, rows, cols = parts
+        lines.append(f"    {'if' if first else 'elif'} {test}:")
+        lines.append(f"        nlead = {len(lead)}")
+        for j, e in enumerate(lead):
+            lines.append(f"        l{j} = {e}")
+        lines += [f"        rlo = {rows[0]}", f"        rhi = {rows[1]}", f"        clo = {cols[0]}", f"        chi = {cols[1]}"]
+        first = False
+        if len(s.orelse) == 1 and isinstance(s.orelse[0], ast.If):
+            s = s.orelse[0]
+            continue
+        if s.orelse and not _only_raises(s.orelse):
+            return bad
+        break
+    return head + init + "\n".join(lines) + "\n    return nlead\n"
+
+
+def _compressed_slice(fn):
+    head = "def cmp_section(row_min, row_max, naxis1, naxis2):\n"
+    bad = head + "    rlo = untranslatable('compressed branch not recognised')\n    rhi = rlo\n    clo = rlo\n    chi = rlo\n    return rlo\n"
+    rets = [(b, u) for b, u in _find_returns(fn) if u]
+    if len(rets) != 1:
+        return bad
+    subs = [n for st in rets[0][0] for n in ast.walk(st) if isinstance(n, ast.Subscript)
+            and isinstance(n.value, ast.Attribute) and n.value.attr == 'data']
+    if len(subs) != 1:
+        return bad
+    parts = _subscript_parts(subs[0])
+    if parts is None or parts[0]:
+        return bad
+    _, rows, cols = parts
+    return head + f"    rlo = {rows[0]}\n    rhi = {rows[1]}\n    clo = {cols[0]}\n    chi = {cols[1]}\n    return rlo\n"
+
+
+def _slices():
+    repo = os.environ.get('AEGEAN_REPO', '/repo')
+    try:
+        tree = ast.parse(open(os.path.join(repo, _F)).read())
+        fn = [n for n in ast.walk(tree) if isinstance(n, ast.FunctionDef) and n.name == 'load_image_band'][0]
+        text = "\n\n".join([_guard_slice(fn), _hdr_slice(fn, 'c'), _hdr_slice(fn, 'p'), _section_slice(fn),
+                            _compressed_slice(fn)])
+    except Exception as exc:
+        text = f"# slicing failed: {exc!r}\n"
+    d = os.path.join(tempfile.gettempdir(), 'verif-C20-slices')
+    os.makedirs(d, exist_ok=True)
+    path = os.path.join(d, 'load_image_band_' + hashlib.sha1(text.encode()).hexdigest()[:12] + '.py')
+    if not os.path.exists(path):
+        with open(path + '.tmp%d' % os.getpid(), 'w') as f:
+            f.write(text)
+        os.replace(path + '.tmp%d' % os.getpid(), path)
+    return path
+
+
+_S = _slices()
+_M = 'Aegean.Model.C20.'
+_HP = ['naxis2', 'crpix2', 'row_min', 'row_max']
+_SP = ['naxis', 'cube_index', 'row_min', 'row_max', 'naxis1', 'naxis2']
+_CP = ['row_min', 'row_max', 'naxis1', 'naxis2']
+
+
+def _fbZ(name, params, hand):
+    return f"def {name} ({' '.join(params)} : Int) : Int := {_M}{hand} {' '.join(params)}"
+
+
+def _fbN(name, params, hand):
+    return f"def {name} ({' '.join(params)} : Nat) : Nat := {_M}{hand} {' '.join(params)}"
+
+
 TARGETS = [
-        dict(file='AegeanTools/fits_tools.py', func='load_image_band', mode='int',
+        dict(file=_F, func='load_image_band', mode='int',
              params={'rows': 'N', 'n': 'N', 'i': 'N'},
              subst={"header['NAXIS2']": 'rows', "band[0]": 'i', "band[1]": 'n'},
              outputs=[('row_min', 'rowMin'), ('row_max', 'rowMax')],
              fallback={'rowMin': 'def rowMin (rows n i : Nat) : Nat := Aegean.Model.C20.rowMinHand rows n i',
                        'rowMax': 'def rowMax (rows n i : Nat) : Nat := Aegean.Model.C20.rowMaxHand rows n i'},
              all_params=['rows', 'n', 'i']),
+        dict(file=_S, func='guard', mode='int', params={'i': 'Z', 'n': 'Z'},
+             outputs=[('code', 'guard')],
+             fallback={'guard': 'def guard (i n : Int) : Nat := Aegean.Model.C20.guardHand i n'},
+             all_params=['i', 'n']),
+        dict(file=_S, func='hdr_c', mode='int', params={p: 'Z' for p in _HP},
+             outputs=[('naxis2', 'hdrNaxis2C'), ('crpix2', 'hdrCrpix2C')],
+             fallback={'hdrNaxis2C': _fbZ('hdrNaxis2C', _HP, 'hdrNaxis2Hand'), 'hdrCrpix2C': _fbZ('hdrCrpix2C', _HP, 'hdrCrpix2Hand')},
+             all_params=_HP),
+        dict(file=_S, func='hdr_p', mode='int', params={p: 'Z' for p in _HP},
+             outputs=[('naxis2', 'hdrNaxis2P'), ('crpix2', 'hdrCrpix2P')],
+             fallback={'hdrNaxis2P': _fbZ('hdrNaxis2P', _HP, 'hdrNaxis2Hand'), 'hdrCrpix2P': _fbZ('hdrCrpix2P', _HP, 'hdrCrpix2Hand')},
+             all_params=_HP),
+        dict(file=_S, func='section', mode='int', params={p: 'N' for p in _SP},
+             outputs=[('nlead', 'secN'), ('l0', 'secL0'), ('l1', 'secL1'), ('rlo', 'secRlo'), ('rhi', 'secRhi'),
+                      ('clo', 'secClo'), ('chi', 'secChi')],
+             fallback={'secN': _fbN('secN', _SP, 'secNHand'), 'secL0': _fbN('secL0', _SP, 'secL0Hand'),
+                       'secL1': _fbN('secL1', _SP, 'secL1Hand'), 'secRlo': _fbN('secRlo', _SP, 'secRloHand'),
+                       'secRhi': _fbN('secRhi', _SP, 'secRhiHand'), 'secClo': _fbN('secClo', _SP, 'secCloHand'),
+                       'secChi': _fbN('secChi', _SP, 'secChiHand')},
+             all_params=_SP),
+        dict(file=_S, func='cmp_section', mode='int', params={p: 'N' for p in _CP},
+             outputs=[('rlo', 'cmpRlo'), ('rhi', 'cmpRhi'), ('clo', 'cmpClo'), ('chi', 'cmpChi')],
+             fallback={'cmpRlo': _fbN('cmpRlo', _CP, 'cmpRloHand'), 'cmpRhi': _fbN('cmpRhi', _CP, 'cmpRhiHand'),
+                       'cmpClo': _fbN('cmpClo', _CP, 'cmpCloHand'), 'cmpChi': _fbN('cmpChi', _CP, 'cmpChiHand')},
+             all_params=_CP),
     ]
